@@ -43,6 +43,9 @@ def corpus():
     return out
 
 
+KW = KW + [x for k in (b"INFinity", b"NINFinity", b"NAN", b"MAXimum", b"MINimum") for x in keyword_near_misses(k)]
+
+
 def generate(rng, tier):
     nr = 300 if tier == "quick" else 6000
     out = []
